@@ -33,4 +33,8 @@ loops, close the connections, wait for their goroutines; accept loops close thei
 is registered before its goroutine is started and the TLS handshake runs inside that goroutine -/
 theorem source_lifecycle_matches_transition_system : lifecycleFactsOK = true := by decide
 
+/-- the password gate of command dispatch: the authorization check precedes the single call of the executor, and its
+only exemption is the AUTH command itself -/
+theorem source_auth_gate : (factHolds "authGateBeforeExecutor" && factHolds "authGateExemptsOnlyAuth") = true := by decide
+
 end GoRedis
